@@ -36,6 +36,7 @@ type Seg struct {
 	Bytes  []byte
 	Action string // "" send | "close" client drops its connection(s) | "backend:<hex>" unused
 	Frags  [][]byte
+	NoWait bool // do not wait for quiescence after this segment (burst)
 }
 
 // StepObs is what was observed after one segment, at quiescence.
@@ -125,6 +126,9 @@ func RunSeq(cfg SeqCfg, segs []Seg) *SeqResult {
 				c.SendFragments(s.Frags...)
 			default:
 				c.SendSegment(s.Bytes)
+			}
+			if s.NoWait {
+				continue
 			}
 			vsched.WaitIdle()
 			c.Absorb()
